@@ -193,9 +193,8 @@ pub fn run_case(ctx: &mut CaseCtx) -> CaseResult {
         let op = match rng.below(12) {
             0..=9 if big => HOp::Write(*rng.pick(&LEVELS), rng.range(2_000, 9_000) as usize),
             0..=6 => HOp::Write(*rng.pick(&LEVELS), rng.usize(45)),
-            // an explicit rotation in async mode is not ordered with the queued records
-            // (C15's business): rotations come from the criterion there
-            7..=8 if thread_mode != 3 => HOp::Trigger,
+            // (an explicit rotation is ordered with the queued records in async mode, too)
+            7..=8 => HOp::Trigger,
             9 => HOp::Advance(*rng.pick(&[0, 300_000_000, S, 2 * S, 61 * S])),
             10 => HOp::Advance(S),
             _ => {
